@@ -400,7 +400,7 @@ func TestVerifC28(t *testing.T) {
 		}
 	}
 
-	npools := vk.N(12, 960)
+	npools := vk.N(12, 640)
 	for pi := 0; pi < npools; pi++ {
 		r := vk.RandFor(2801, pi)
 		pool := makePool(r, 400+r.IntN(200))
